@@ -35,7 +35,7 @@ def _cfg(tier):
     return Cfg(nvars=(1, 3), pool=(2, 5), dom=(1, 3), max_product=27, profile="falsy", max_depth=2,
                allow_empty_cond=False, select="any", desc=("entity", "set_of"), value_terms_in_select=True,
                force_relate=False, noise=False, dom_kinds=("list",), use_k=False,
-               exclude_leaves=frozenset({"substr", "starts", "tval"}), kw_vars=(1, 4),
+               exclude_leaves=frozenset({"substr", "starts", "tval"}), kw_vars=(1, 4), const_operands=(0, 1),
                allow_nested_not="not_under_not" not in open_features())
 
 
@@ -89,7 +89,7 @@ def _phi_cond(c):
         return ["truth", _phi_term(c[1])]
     if k in ("fpred", "cpred"):
         return [k, c[1], [_phi_term(a) for a in c[2]]]
-    if k == "hastype":
+    if k in ("hastype", "const"):
         return c
     if k in ("and", "or"):
         return [k, c[1], [_phi_cond(x) for x in c[2]]]
